@@ -110,7 +110,7 @@ func LifecycleScenario(t *rapid.T) sim.CScenario {
 		op := pick(t, "faultop", []string{"recv", "send"})
 		f := sim.Fault{Op: op, At: rapid.IntRange(1, 5).Draw(t, "faultat"), Kind: "err"}
 		if op == "recv" {
-			f.Kind = pick(t, "faultkind", []string{"err", "data+eof", "data+err"})
+			f.Kind = pick(t, "faultkind", []string{"err", "data+eof", "data+err", "netclosed", "chanclosed"})
 		}
 		sc.Cfg.Faults = append(sc.Cfg.Faults, f)
 	}
